@@ -61,6 +61,12 @@ CLAIMED = {
  'C13': ('proptest-generated placements of marker values over all configuration sources and feature graphs; reference resolver of the documented precedence; observation through show_config; repeat-run determinism',
          'Exploration: for generated placements over command line, main section, GIT_CONFIG_PARAMETERS, custom and builtin features, DELTA_FEATURES and feature flags, an independent resolver of the documented order must predict the value --show-config reports for each of 16 observed options of every value type; repeated constructions agree; --no-gitconfig equals an empty configuration.',
          'Trusted: reference resolver (documented order + ordering comment of gather_features for nesting and command-line flag order); builtin feature definitions learnt from delta in the simplest setting.', '3/C13'),
+ 'C16': ('proptest-generated grep/ripgrep streams (git grep, grep -n, rg --json and plain rg) x tagged grep option sets; one-row-per-hit / path / number / code oracle via terminal model',
+         'Exploration: every generated hit must give exactly one rendered row (classic and ripgrep layouts) showing its path, its line number and its code unchanged, match rows and context rows painted with their own styles, submatches highlighted exactly where the input says; section headers once per file in ripgrep layout.',
+         'Trusted: terminal model and tag attribution; paths/code restricted so that the generated line has one reading (see known findings for the ambiguous ones).', '3/C16'),
+ 'C17': ('proptest-generated blame streams from a model history x palettes x blame/separator formats; per-row code/number/attribution oracle; colour invariants over the row sequence',
+         'Exploration: every blame line must give one row with the code unchanged, the line number as the separator format dictates and the attribution (commit, author, formatted time) shown or blanked with equal width on repeats; rows of equal consecutive attribution share a colour, differing neighbours never do, and a commit keeps its colour when it reappears unless the line above has it.',
+         'Trusted: terminal model, tag attribution; fixed timestamp output format; git-coloured blame lines not generated.', '3/C17'),
 }
 hook_commits = subprocess.check_output(['git','-C','/repo','log','--format=%H','--grep','^verif hook:'],text=True).split()
 checks = []
